@@ -29,6 +29,7 @@ ASSUMPTIONS = [
 ]
 
 FLAVOURS = ["py26", "py27", "ext", "twisted", "real", "stream", "none"]
+EXTRA_FLAVOURS = ["ext-falsy"]
 FINAL = {"success", "fail", "skip", "xfail", "uxsuccess"}
 
 
@@ -48,6 +49,13 @@ def make_result_factory(flavour):
         return log, lambda: recorders.Py27Recorder(log)
     if flavour in ("ext", "none"):
         return log, lambda: recorders.ExtRecorder(log)
+    if flavour == "ext-falsy":
+        class EmptyLooking(recorders.ExtRecorder):
+            """A result that is falsy while it holds nothing (defines __len__)."""
+
+            def __len__(self):
+                return 0
+        return log, lambda: EmptyLooking(log)
     if flavour == "twisted":
         return log, lambda: recorders.TwistedRecorder(log)
     if flavour == "real":
@@ -77,7 +85,7 @@ def x_prog(ctx, case):
                       "propagated": repr(run.propagated)}
     # ---- bracket ------------------------------------------------------------
     if flavour == "stream":
-        ev = [e.payload for e in log.of("status") if e.payload["test_id"] == "prog.test"]
+        ev = [e.payload for e in log.of("status") if e.payload["test_id"] == program.get("clone_id", "prog.test")]
         statuses = [p["test_status"] for p in ev if p["test_status"] is not None]
         finals = [s for s in statuses if s in FINAL]
         ok = (len(statuses) >= 2 and statuses[0] == "inprogress" and len(finals) == 1
@@ -96,6 +104,11 @@ def x_prog(ctx, case):
             ctx.check(names[:1] == ["startTestRun"] and names[-1:] == ["stopTestRun"]
                       and names.count("startTestRun") == 1 and names.count("stopTestRun") == 1,
                       "result-none.bracketed-by-run", detail)
+    # ---- the events are about the test that was run (a clone reports under its own id) ------
+    want_id = program.get("clone_id", "prog.test")
+    if flavour != "stream":
+        ids = {e.test for e in log.events if e.name in ("startTest", "stopTest") or e.name in recorders.OUTCOMES}
+        ctx.check(ids <= {want_id}, "events.carry-the-id-of-the-test-run", lambda: {"ids": sorted(ids), "want": want_id})
     # ---- BaseException propagation ----------------------------------------------
     if base:
         ctx.check(run.propagated is not None and not isinstance(run.propagated, Exception),
@@ -110,7 +123,8 @@ def x_prog(ctx, case):
     else:
         ctx.check(run.propagated is None, "no-unexpected-raise", detail)
     # ---- a raised exception never yields success -----------------------------------
-    if outcome is not None and flavour in ("ext", "real", "py27", "none", "twisted"):
+    xfail_decor = program.get("decor") == "stdlib_expectedFailure"
+    if outcome is not None and flavour in ("ext", "real", "py27", "none", "twisted", "ext-falsy") and not xfail_decor:
         if raised or forced:
             ctx.check(outcome != "addSuccess", "no-success-when-something-raised",
                       lambda: {"outcome": outcome, **detail()})
@@ -128,13 +142,22 @@ def x_prog(ctx, case):
         ran = [e[2] for e in env.tags("cleanup_enter")]
         ctx.check(sorted(regs) == sorted(ran), "base.does-not-stop-cleanups",
                   lambda: {"registered": regs, "ran": ran, **detail()})
+    if case.get("rerun") and flavour not in ("stream", "none") and run.propagated is None:
+        # the same instance once more: again exactly one outcome, nothing left over from run 1
+        del log.events[:]
+        run.env.reset_for_rerun()
+        run2 = programs.execute(program, factory, env=run.env, case=run.case)
+        core2 = [n for n in log.names() if n in ("startTest", "stopTest") or n in recorders.OUTCOMES]
+        ctx.check(len(core2) == 3 and core2[0] == "startTest" and core2[2] == "stopTest"
+                  and core2[1] in recorders.OUTCOMES, "bracket.exactly-one-outcome",
+                  lambda: {"second run of the same instance": core2, "first": names})
     return nontrivial
 
 
 SUBCHECKS = {"prog": x_prog}
 
 FEATURES = ("own_exc", "expect", "force", "decor", "noupcall", "nested_cleanup", "truthy_return",
-            "mismatch_details", "handlers")
+            "mismatch_details", "handlers", "clone", "xfail_decor", "eq_exc", "setup_returns")
 
 
 def run(ctx):
@@ -159,7 +182,9 @@ def run(ctx):
         prog = progen.random_program(rng, features=FEATURES)
         if rng.random() < 0.1:
             prog["rtw"] = True  # @run_test_with(RunTest) on the test method
-        case = {"prog": prog, "flavour": rng.choice(FLAVOURS)}
+        case = {"prog": prog, "flavour": rng.choice(FLAVOURS + EXTRA_FLAVOURS)}
+        if rng.random() < 0.15 and "'handler'" not in repr(prog):
+            case["rerun"] = True
         r = rng.random()
         if r < 0.15:
             case["runner"] = "sync"
